@@ -204,6 +204,15 @@ class CoreTask:
                         res[slot] = {"failures": ex["failures"], "tried": res[slot].get("tried", 0) + ex["tried"]}
                 except Exception as e:      # noqa
                     res[slot] = {"error": str(e)[-300:], "failures": []}
+        elif self.which in ("iter_errors_x", "ref_x", "scope_cm_x") and type(self).__name__ == "CoreTask":
+            # an unbalanced scope stack shows in what the SAME validator does next: operation histories, then references
+            try:
+                res["search"] = driver.rt_call("pyvc.rt_hist", {"cmd": "search", "root": self.root, "maxlen": 2, "limit": 3,
+                                                                 "configs": [[True, "default"]]}, self.root, timeout=3000)
+                if not res["search"].get("failures"):
+                    res["search"] = driver.rt_call("pyvc.rt_ref", {"cmd": "search", "root": self.root, "limit": 3}, self.root, timeout=3000)
+            except Exception as e:      # noqa
+                res["search"] = {"error": str(e)[-300:], "failures": []}
         elif self.which == "is_type" and type(self).__name__ == "CoreTask":
             # is_type is observable through `type` and through every keyword guarded by a type test
             fails, tried = [], 0
